@@ -44,11 +44,16 @@ func GetNodePreferableGpuForSharing(fittingGPUsOnNode []string, node *node_info.
 	}
 
 	deviceCounts := pod.ResReq.GetNumOfGpuDevices()
+	freshDevices := 0
 	for _, gpuIdx := range fittingGPUsOnNode {
 		if gpuIdx == pod_info.WholeGpuIndicator {
 			if wholeGpuForSharing := findGpuForSharingOnNode(pod, node, isPipelineOnly); wholeGpuForSharing != nil {
+				// the candidates stand for idle and for releasing devices alike: no more fresh devices than are
+				// idle right now can be taken without waiting
+				freshDevices++
 				nodeGpusSharing.IsReleasing =
-					nodeGpusSharing.IsReleasing || wholeGpuForSharing.IsReleasing
+					nodeGpusSharing.IsReleasing || wholeGpuForSharing.IsReleasing ||
+						freshDevices > int(node.Idle.GPUs())
 				nodeGpusSharing.Groups = append(nodeGpusSharing.Groups, wholeGpuForSharing.Groups...)
 			}
 		} else {
